@@ -86,7 +86,7 @@ func NewContractSet() *ContractSet {
 	return &ContractSet{ByKey: map[string]*Contract{}, Preds: map[string]*PredDecl{}, Defs: map[string]*SpecDef{}, GhostMaps: map[string]*GhostMap{}}
 }
 
-var clauseRe = regexp.MustCompile(`^(spawn\s+|site\s+\S+\s+)?(requires|ensures|assigns|ghostset|nopanic|noreturn|pure|inline|trusted|loop\s+\d+\s+invariant)(\[[A-Za-z0-9_, ]*\])?\s*(.*)$`)
+var clauseRe = regexp.MustCompile(`^(spawn\s+|site\s+\S+\s+)?(requires|ensures|assigns|ghostset|nopanic|noreturn|pure|inline|trusted|maypanic|loop\s+\d+\s+invariant)(\[[A-Za-z0-9_, ]*\])?\s*(.*)$`)
 var labelRe = regexp.MustCompile(`^([A-Za-z_][A-Za-z0-9_.\-=<>+,]*):\s+(.*)$`)
 var headRe = regexp.MustCompile(`^(func|extern|functype|iface)\s+(.*)$`)
 
@@ -244,7 +244,7 @@ func (cs *ContractSet) finishClause(c *Clause) {
 				c.Targets = append(c.Targets, t)
 			}
 		}
-	case "nopanic", "noreturn", "pure", "inline", "trusted":
+	case "nopanic", "noreturn", "pure", "inline", "trusted", "maypanic":
 	default:
 		n, err := parseSpec(c.Text)
 		if err != nil {
@@ -538,4 +538,13 @@ func parseSpec(s string) (*SpecNode, error) {
 	}
 	n.Go = e
 	return n, nil
+}
+
+func (c *Contract) has(kind string) bool {
+	for _, cl := range c.Clauses {
+		if cl.Kind == kind {
+			return true
+		}
+	}
+	return false
 }
